@@ -47,6 +47,7 @@ def run(ctx):
     ctx.rule("C03.2b", "B-tree mutators write only freshly allocated pages (no in-place rewrite of pages a snapshot may read)")
     ctx.rule("C03.2c", "snapshot read methods acquire no lock of live mutable engine state")
     ctx.rule("C03.3", "snapshot types have no `&mut self` method and no public field")
+    ctx.rule("C03.2d", "no engine operation frees a page: snapshots read roots lazily through the shared pager, so a freed page is observable")
 
     # ---- clause 1 ---------------------------------------------------------
     rb = ctx.body(F.impl_method("nervusdb_api::GraphStore", M.ENGINE, "snapshot") or "impl GraphStore for GraphEngine::snapshot")
@@ -169,3 +170,15 @@ def run(ctx):
         ctx.instance("C03.3", "%s self=%s" % (i, a0[:40]))
         ctx.oblige(not is_mut_self, "C03.3", i + ":mut-self",
                    "`&mut self` method on a snapshot type", b.file)
+
+    # ---- clause 2d --------------------------------------------------------
+    ONLINE = [M.COMMIT, M.COMPACT, M.CHECKPOINT_ON_CLOSE, M.GET_OR_CREATE_LABEL, M.ENGINE + "::create_index", M.ENGINE + "::insert_vector",
+              M.ENGINE + "::search_vector", M.BEGIN_READ, M.BEGIN_WRITE]
+    for fn in ONLINE:
+        ctx.body(fn)
+        path = F.reaches(fn, {M.FREE_PAGE})
+        ctx.instance("C03.2d", "%s reaches Pager::free_page: %s" % (fn.split("::")[-1], [x.split("::")[-1] for x in path] if path else "no"))
+        ctx.oblige(not path, "C03.2d", "%s=>free_page" % fn,
+                   "this operation frees pages while snapshots that captured the old root can still read them lazily through the shared pager "
+                   "(they see `page not allocated`, zeroed counts, or another structure's data once the page is reused): %s"
+                   % (" -> ".join(x.split("::")[-1] for x in path) if path else ""), F.bodies[fn].file)
